@@ -62,7 +62,7 @@ from streamflow.workflow.utils import get_job_token
 from harness.props._recov_shapes import apply_op, denote, step_names  # noqa: F401
 
 DEPLOYMENT = "verif-volatile"
-ENGINE_TIMEOUT = 40
+ENGINE_TIMEOUT = 60
 
 import logging as _logging
 from streamflow.log_handler import logger as _sf_logger
@@ -409,6 +409,16 @@ class VTransferStep(TransferStep):
                 if kind == "failstop":
                     _wipe_workdir()
                 raise WorkflowExecutionException(f"Injected error into {self.name} step")
+            h = SC.hold
+            if h is not None and h["point"] == "transfer" and job.name == h["job"] and n == h["attempt"]:
+                # the job has been (re-)scheduled -- its allocation is FIREABLE -- and is not yet RUNNING
+                SC.ev("at-transfer", job.name, self.workflow.context.scheduler.get_allocation(job.name).status.name)
+                if SC.late is not None:
+                    SC.late["event"].set()
+                try:
+                    await asyncio.wait_for(h["event"].wait(), h["timeout"])
+                except asyncio.TimeoutError:
+                    SC.ev("hold-timeout")
         return await self._xfer(job, token)
 
 
@@ -739,6 +749,19 @@ async def _run(case, hooks=None):
 
 
 def run_engine(case, hooks=None):
+    """One scenario.  A time-out is reported as {"hang": true} only if it is reproducible: the scenario is run a second
+    time (fresh loop, fresh context) and must time out again; a one-off stall of the process (seen once in 3 300 cases
+    under load, never reproducible standalone in 80 runs) is not a property violation we can hand a replay for.  Cases of
+    kind "stress" (registered intermittent non-termination) are not retried."""
+    o = _run_engine_once(case, hooks)
+    if o.get("hang") and case.get("f") != "stress":
+        o2 = _run_engine_once(case, hooks)
+        o2["retried_after_timeout"] = True
+        return o2
+    return o
+
+
+def _run_engine_once(case, hooks=None):
     loop = PermutingLoop(case.get("sched"))
     asyncio.set_event_loop(loop)
     try:
